@@ -24,12 +24,17 @@
     rx.plan   <xBASE> <doc>   → `<wf 0|1> | <tree> | <denote> | <flat>`
                                  denote = `ok <triples>` | `err:syntax` | `err:unsupported`; flat = triples
     rx.denote <xBASE> <tree>  → `ok <triples>` | `err:syntax` | `err:unsupported`
+    rx.write  <xBASE> <knobs> <xml:base|-> <triple>…  → `<auto plan used 0|1> | <tree> | <denote>`
+                                 knobs = 8 characters 0/1: group typed attrs li useID hoist nest rel; triples
+                                 `S,P,O` with the term tokens of Driver/Wire.lean (`B<hex>` blank node label =
+                                 its rdf:nodeID); the tree is `RX.writeAuto` of the graph
   Triples `S,P,O` joined by `;` (`-` for none). Terms: `I<hex>`, `G<n>` generated blank node,
   `N<hex>` rdf:nodeID blank node, `L<hexlex>.<hexdt>.<hexlang|->`.
   Reference resolution is `Spec.RFC3986.resolve`.
 -/
 import RdfModel.Driver.Wire
 import RdfModel.Spec.RdfXmlFragment
+import RdfModel.Spec.RdfXmlWriter
 import RdfModel.Spec.RFC3986
 namespace RdfModel.Driver.RdfXml
 open RdfModel RdfModel.Wire RdfModel.RX RdfModel.Desc
@@ -227,6 +232,23 @@ def showResult : Except Err (List T) → String
 
 def rs : Str → Str → Str := Spec.RFC3986.resolve
 
+def parseTriple (s : String) : Option (Triple Str) :=
+  match s.splitOn "," with
+  | [a, b, c] => do
+    let a ← (← parseTerm a)
+    let b ← (← parseTerm b)
+    let c ← (← parseTerm c)
+    match b with
+    | .iri p => pure ⟨a, p, c⟩
+    | _ => none
+  | _ => none
+
+def parseKnobs (s : String) (base : Option Str) : Option Knobs :=
+  match s.toList.map (· == '1') with
+  | [a, b, c, d, e, f, g, h] =>
+    some { group := a, typed := b, attrs := c, li := d, useID := e, hoist := f, nest := g, rel := h, base := base }
+  | _ => none
+
 def handle (op : String) (args : List String) : Option String :=
   match op, args with
   | "plan", base :: rest => do
@@ -236,6 +258,14 @@ def handle (op : String) (args : List String) : Option String :=
     let t := renderDoc d
     pure ((if wfDoc rs env d then "1" else "0") ++ " | " ++ showTree t ++ " | " ++
       showResult (denoteDoc rs env t) ++ " | " ++ showTriples (flatDoc d))
+  | "write", base :: kn :: xb :: ts => do
+    let base ← runesTok base
+    let xb ← (if xb = "-" then some none else (runesTok xb).map some)
+    let k ← parseKnobs kn xb
+    let g ← ts.mapM parseTriple
+    let t := writeAuto rs base id g k
+    pure ((if autoPlanUsed rs base id g k then "1" else "0") ++ " | " ++ showTree t ++ " | " ++
+      showResult (denoteDoc rs ⟨base, none⟩ t))
   | "denote", base :: rest => do
     let base ← runesTok base
     let t ← tree (← parseSExp rest)
